@@ -223,7 +223,7 @@ Lemma scoped_release_counts sc t c m body w w' p out :
   can_all m (kleaves (shape_of sc c)) (w_raw w) = true -> NoDup (leaves (shape_of sc c)) ->
   forallb (fun l => Nat.eqb (releases_of l (rev (w_trace w'))) 1) (leaves (shape_of sc c)) = true.
 Proof.
-  intros [w1 [w2 [evA [evR [TA [NA [BA [RA [NR [HA [Hraw [_ [F [TR FR]]]]]]]]]]]]]] Tw Rn H0 Hsame Can ND.
+  intros [w1 [w2 [evA [evR [TA [NA [BA [RA [NR [HA [Hraw [_ [F [TR [FR _]]]]]]]]]]]]]]] Tw Rn H0 Hsame Can ND.
   destruct (fr_tr _ _ F) as [U [TU FU]]. cbn [emit w_trace] in TU.
   destruct (run_acct nopw t _ _ _ _ Rn) as [evs [T [_ Hacc]]]. rewrite Tw, app_nil_r in T.
   assert (Eevs : evs = evR ++ U ++ EMark t 1 :: evA).
